@@ -36,6 +36,8 @@ type autoInv struct {
 
 // Frame is one activation (top-level function under verification, or an inlined callee).
 type Frame struct {
+	ghostSet   map[string]bool // ghost globals the call being applied may change (applyMods)
+	ghostKnown bool
 	vc       *VC
 	fn       *ssa.Function
 	vals     map[ssa.Value]Val
